@@ -111,16 +111,17 @@ Sig(r) ==
   THEN IF /\ r.fn = "udp_relay_response" /\ r.res = "ok"
           /\ LET x == UdpHeader(r.atyp, r.addr, r.port, r.payload)
                  h == Len(x) - Len(r.payload)
-             IN \* the right octets in the wrong order inside the header, payload in place
+             IN \* RSV, FRAG, port and payload in place; the octets of ATYP | ADDR are the right ones in the wrong order
                 /\ Len(r.out) = Len(x)
-                /\ SubSeq(r.out, h + 1, Len(x)) = r.payload
-                /\ SameBag(SubSeq(r.out, 1, h), SubSeq(x, 1, h))
+                /\ SubSeq(r.out, 1, 3) = SubSeq(x, 1, 3)
+                /\ SubSeq(r.out, h - 1, Len(x)) = SubSeq(x, h - 1, Len(x))
+                /\ SameBag(SubSeq(r.out, 4, h - 2), SubSeq(x, 4, h - 2))
        THEN "udp_header_layout"
        ELSE "other:" \o r.fn
   ELSE IF r.ev = "parse" /\ WellFormedParse(r)
   THEN LET e == ParseFn(r.fn, r.input) IN
        \* a NUL-terminated field (USERID, 4a domain name) cut off before its terminator, yet accepted
-       IF r.fn = "v4_request" /\ e.st = "needmore" /\ r.res = "ok" /\ Len(r.input) >= 8
+       IF r.fn = "v4_request" /\ r.mode = "eof" /\ e.st = "needmore" /\ r.res = "ok" /\ Len(r.input) >= 8
        THEN "socks4_missing_nul"
        ELSE "other:" \o r.fn
   ELSE "other:malformed_line"
